@@ -472,9 +472,14 @@ func execC15(t *testing.T, c *sim.Case) *sim.Result {
 			w.callKind = "edit_batch"
 			res.Probes["batched_call"]++
 		}
+		mfile, msize := w.manifestFile()
+		ackedBefore := w.acked
 		var err error
 		if perr := guard(func() { err = w.m.LogEdits(edits...) }); perr != nil {
 			err = perr
+		}
+		if err == nil {
+			w.tornAppendCheck(mfile, msize, ackedBefore)
 		}
 		res.Trace.Add("LogEdits n=%d type0=%d err=%s", len(edits), edits[0].Type, errS(err))
 		if err != nil {
@@ -560,4 +565,63 @@ func execC15(t *testing.T, c *sim.Case) *sim.Result {
 	}
 	res.Nontrivial = res.Faults["crash_images"] > 0 && w.acked > 0
 	return res
+}
+
+// manifestFile returns the path and size of the manifest file CURRENT names.
+func (w *c15World) manifestFile() (string, int64) {
+	b, err := os.ReadFile(filepath.Join(w.dir, "CURRENT"))
+	if err != nil {
+		return "", 0
+	}
+	p := filepath.Join(w.dir, strings.TrimSpace(string(b)))
+	st, err := os.Stat(p)
+	if err != nil {
+		return "", 0
+	}
+	return p, st.Size()
+}
+
+// tornAppendCheck enumerates EVERY byte position inside the bytes the last call
+// appended to the manifest file (a crash "at any point during an edit": the
+// file ends somewhere inside the append). Each such image must verify and open
+// to the state after some prefix of the edits in [ackedBefore, issued].
+func (w *c15World) tornAppendCheck(file string, sizeBefore int64, ackedBefore int) {
+	cur, sizeAfter := w.manifestFile()
+	if cur == "" || cur != file || sizeAfter <= sizeBefore || sizeAfter-sizeBefore > 4096 {
+		return // rewritten during the call, nothing appended, or too large to enumerate
+	}
+	res := w.res
+	for cut := sizeBefore + 1; cut < sizeAfter; cut++ {
+		w.imgSeq++
+		img := filepath.Join(sim.Scratch(), fmt.Sprintf("c15cut-%d", w.imgSeq))
+		_ = os.RemoveAll(img)
+		if err := sim.CopyTree(w.dir, img); err != nil {
+			_ = os.RemoveAll(img)
+			return
+		}
+		_ = os.Truncate(filepath.Join(img, filepath.Base(cur)), cut)
+		res.Faults["append_cut_images"]++
+		res.Checks++
+		sig := map[string]string{"call": w.callKind, "at": "append_cut", "torn": "byte"}
+		m, stage, err := openImage(img)
+		if err != nil {
+			res.Violate(w.step, "crash_"+stage+"_error", sig, "manifest append cut %d bytes into the %d bytes written by %s (%d edits acknowledged before, %d issued): %s: %v", cut-sizeBefore, sizeAfter-sizeBefore, w.callKind, ackedBefore, w.issued, stage, err)
+			_ = os.RemoveAll(img)
+			continue
+		}
+		got := canon(m.Current(), true)
+		_ = m.Close()
+		_ = os.RemoveAll(img)
+		match := false
+		for j := ackedBefore; j <= w.issued && j < len(w.snapsNorm); j++ {
+			if diffCanon(got, w.snapsNorm[j]) == "" {
+				match = true
+				break
+			}
+		}
+		if !match {
+			sig["kind"] = "no_prefix"
+			res.Violate(w.step, "crash_state_mismatch", sig, "manifest append cut %d bytes into the %d bytes written by %s: the image opens to a state that is not the state after j edits for any j in [%d,%d]", cut-sizeBefore, sizeAfter-sizeBefore, w.callKind, ackedBefore, w.issued)
+		}
+	}
 }
